@@ -285,6 +285,8 @@ def enumerated(tier):
   for prog, cfg in RUN_PROGS:
     yield {'k': 'runs', 'prog': prog, 'cfg': cfg, 'n': 3}
     yield {'k': 'runs', 'prog': prog, 'cfg': cfg, 'n': 3, 'cond': True}
+  for prog, cfg in ALT_START_PROGS:
+    yield {'k': 'runs', 'prog': prog, 'cfg': cfg, 'n': 4, 'alt_start': True}
   yield {'k': 'pair', 'seed': None}
   yield {'k': 'pair', 'seed': 1}
 
@@ -306,6 +308,12 @@ RUN_PROGS = [
      {'plugs': {'0': 'ctor_raise_once'}}),
     ([_p('a', plugs=[1])], {'start': _p('st', plugs=[0]),
                             'plugs': {'0': 'ctor_raise_once'}}),
+]
+# programs whose start trigger needs a plug no test phase uses; the trigger is
+# used in every other run only
+ALT_START_PROGS = [
+    ([_p('a', plugs=[1]), _p('b', plugs=[1, 2])], {'start': _p('st', plugs=[0])}),
+    ([_p('a')], {'start': _p('st', plugs=[0, 1], m='pass')}),
 ]
 
 
@@ -437,6 +445,7 @@ def run_runs(case):
     conf['allow_unset_measurements'] = True
   fp0 = fingerprint([t.descriptor.phase_sequence, t._test_options,  # pylint: disable=protected-access
                      b.start])
+  plug_types0 = set(t.descriptor.plug_types)
   first = None
   for i in range(case['n']):
     b.ctr.clear()
@@ -444,9 +453,12 @@ def run_runs(case):
     del b.log.events[:]
     del recs[:]
 
+    # alt_start: the start trigger is used in every other run only
+    use_start = b.start if not (case.get('alt_start') and i % 2) else None
+
     @CONF.save_and_restore(**conf)
     def go():
-      return t.execute(test_start=b.start)
+      return t.execute(test_start=use_start)
     try:
       ret = go()
     except Exception as e:  # pylint: disable=broad-except
@@ -454,6 +466,22 @@ def run_runs(case):
                    'detail': {'run': i, 'error': str(e)[:120]}})
       break
     pm.prune_handlers()
+    if set(t.descriptor.plug_types) != plug_types0:
+      viol.append({'mechanism': 'declared-plug-types-changed-by-execute',
+                   'detail': {'run': i, 'now': sorted(
+                       x.__name__ for x in t.descriptor.plug_types)}})
+      break
+    if case.get('alt_start') and use_start is None and cfg.get('start'):
+      prog_plugs = {pm.plug_index(x) for n, _ in pm.walk(prog) if n[0] == 'P'
+                    for x in n[2].get('plugs') or []}
+      start_only = {pm.plug_index(x) for x in cfg['start'][2].get('plugs') or []
+                    } - prog_plugs
+      made = sorted({e[3] for e in b.log.events if e[2] == 'plug_ctor'} & start_only)
+      if made:
+        viol.append({'mechanism': 'plug-of-absent-trigger-constructed',
+                     'detail': {'run': i, 'plugs': made}})
+        break
+      continue       # runs without the trigger are not compared with the first
     c['fingerprints_compared'] += 1
     d = first_diff(fp0, fingerprint([t.descriptor.phase_sequence,
                                      t._test_options, b.start]))  # pylint: disable=protected-access
